@@ -31,7 +31,7 @@ func (c05) Required() []string {
 func (c05) Cases(tier string, seed uint64) []core.Case {
 	n := 400
 	if tier == "thorough" {
-		n = 12000
+		n = 120000
 	}
 	r := core.NewRng(core.Mix(seed, 0xC05))
 	var out []core.Case
